@@ -281,7 +281,7 @@ func runC10(c *checker) {
 		c.rep.Notes = append(c.rep.Notes, "in-process link-order runs skipped: "+summarize(err.Error(), 300))
 		helper = ""
 	}
-	nProg := pick(4, 24)
+	nProg := pick(6, 30)
 	if *programs > 0 {
 		nProg = *programs
 	}
